@@ -33,7 +33,16 @@ RULE = ("one operation = one key exchange of the real client (NewMTProto + Creat
         "same object - a request through MakeRequest (+req), a second CreateConnection answered with the same script "
         "and then a request (+retry), each on its own goroutine with a bounded wait - while the server logs every "
         "frame the client writes: no encrypted message (auth_key_id != 0), nothing stored, not in encrypted mode, "
-        "the retry ends with an error. distinct = distinct operation lines; each "
+        "the retry ends with an error. The pool also holds one key per byte length of the public exponent (3 / 5 "
+        "/ 17, a 2-byte, a 3-byte other than 65537, a 4-byte exponent; built from two primes); for EVERY pool key as "
+        "the client's key resPQ offers near misses only - the same modulus with a dozen other exponents, the other "
+        "moduli with this exponent, the own fingerprint byte-reversed / sign-flipped / negated / one half / shifted "
+        "/ off by one - and, in a c07.seq, the near misses with the own fingerprint among them (must be accepted). "
+        "Every reply field that echoes nonce or server_nonce (seven sites) and new_nonce_hash1, echoed with its ZERO "
+        "BYTES MOVED: the right value has 1-3 leading and/or 1-2 trailing zero bytes (the client's nonce is a draw "
+        "of the operation, server_nonce the server's choice, the hash forced by counting the server's DH secret "
+        "upwards) and the echo is the value rotated by whole bytes over its zero bytes (00||X -> X||00, X||00 -> "
+        "00||X, 00||Y||00 -> Y||0000 ...), 8 moves x 7 sites per round. distinct = distinct operation lines; each "
         "is compared with the Lean client machine (outcome class, the three request bodies, key, salt, flags, "
         "stores) and judged by the independent reply-sequence judge")
 
